@@ -66,6 +66,24 @@ pub fn health(w: &World, acct: &Pubkey) -> Option<Health> {
     })
 }
 
+/// unweighted value of all deposits / all debts of an account, computed here from the raw shares, share values, fixed
+/// prices and mint decimals (the worlds of this monitor use fixed-price banks) — independent of the program's risk engine
+pub fn indep_equity(w: &World, acct: &Pubkey) -> (num_bigint::BigInt, num_bigint::BigInt) {
+    use num_bigint::BigInt;
+    let a = w.marginfi_account(acct);
+    let (mut av, mut lv) = (BigInt::from(0), BigInt::from(0));
+    for bal in a.lending_account.balances.iter().filter(|b| b.is_active()) {
+        let bk = w.bank(&bal.bank_pk);
+        let price = BigInt::from(bits(bk.config.fixed_price));
+        let scale = BigInt::from(10u8).pow(bk.mint_decimals as u32);
+        let amt_a = (BigInt::from(bits(bal.asset_shares)) * BigInt::from(bits(bk.asset_share_value))) >> 48u32;
+        let amt_l = (BigInt::from(bits(bal.liability_shares)) * BigInt::from(bits(bk.liability_share_value))) >> 48u32;
+        av += ((amt_a * &price) >> 48u32) / &scale;
+        lv += ((amt_l * &price) >> 48u32) / &scale;
+    }
+    (av, lv)
+}
+
 struct Ctx {
     receiver: Pubkey,
     receiver_toks: Vec<Pubkey>,
@@ -193,6 +211,15 @@ pub fn run(rng: &mut Rng, n: usize, rep: &mut Report) {
             bk.config.fixed_price = I80F48::from_num(10.0 * f).into();
             s.w.set_bank(&key, &bk);
         }
+        // a third of the worlds cap the collateral bank's value for INITIAL-margin purposes far below its deposits
+        // (total_asset_value_init_limit): unweighted (equity) valuation must not be affected by it
+        if rng.chance(1, 3) {
+            let key = s.banks[0].bank;
+            let mut bk = s.w.bank(&key);
+            bk.config.total_asset_value_init_limit = 1 + rng.below(50);
+            s.w.set_bank(&key, &bk);
+            rep.bump("init_limit_world");
+        }
         let stranger = s.w.add_wallet(1_000_000_000);
         let stranger_toks: Vec<Pubkey> = s.banks.clone().iter().map(|b| s.w.add_token_account(b.mint, stranger, 1_000_000_000_000)).collect();
 
@@ -269,6 +296,7 @@ pub fn run(rng: &mut Rng, n: usize, rep: &mut Report) {
             let ixs: Vec<Instruction> = tx.iter().map(|k| build_ix(&s, &cx, k)).collect();
             let pre_store = s.w.accounts.clone();
             let pre_h: Vec<Option<Health>> = (0..3).map(|i| health(&s.w, &s.users[i].acct)).collect();
+            let pre_eq: Vec<(num_bigint::BigInt, num_bigint::BigInt)> = (0..3).map(|i| indep_equity(&s.w, &s.users[i].acct)).collect();
             let r = s.w.exec_tx(&ixs);
             rep.bump("cases");
             done += 1;
@@ -318,6 +346,22 @@ pub fn run(rng: &mut Rng, n: usize, rep: &mut Report) {
                             }
                             if liq && post.maint > 0 && !tiny {
                                 rep.fail(format!("C10 account positive at maintenance level after liquidation ({}): {:?}", post.maint, tx));
+                            }
+                            // independent valuation of what was seized and repaid (raw shares x share value x fixed price)
+                            {
+                                let (a1, l1) = indep_equity(&s.w, &s.users[v].acct);
+                                let (a0, l0) = (&pre_eq[v].0, &pre_eq[v].1);
+                                let seized_i = a0 - &a1;
+                                let repaid_i = l0 - &l1;
+                                let five = num_bigint::BigInt::from(5 * ONE);
+                                let big_enough = a0 >= &(&five + (&five >> 10u32));
+                                if liq && big_enough {
+                                    let lim = (&repaid_i * num_bigint::BigInt::from(ONE + ONE / 20 + 1)) >> 48u32;
+                                    let slack = (&seized_i >> 30u32) + num_bigint::BigInt::from(1 << 16);
+                                    if seized_i > &lim + &slack {
+                                        rep.fail(format!("C10 independently valued seizure {} bits exceeds the repaid value {} by more than the 5% premium (assets were worth {} bits before): {:?}", seized_i, repaid_i, a0, tx));
+                                    }
+                                }
                             }
                             let seized = pre.eq_assets - post.eq_assets;
                             let repaid = pre.eq_liabs - post.eq_liabs;
